@@ -87,7 +87,8 @@ fn kb_err_code(e: &KeyBindingJwtError) -> i64 {
 }
 
 pub fn exec(case: &[i64]) -> Outcome {
-  if case[0] == 1 {
+  if case[0] == 1 || case[0] == 3 {
+    let multi = case[0] == 3;      // kind 3: verify_signature over ALL trusted issuers (no validation units)
     let (c, conceal, disclose, tamper, orig) = tail(case);
     let docs: Vec<CoreDocument> = match c.issuers.iter().map(|i| i.build()).collect::<Option<Vec<_>>>() { Some(d) => d, None => return Outcome::new(vec![-7]).class("unbuildable").trivial().fail("issuer document does not build") };
     let src = C02Case { vc: orig.clone(), ..c.clone() };
@@ -96,16 +97,20 @@ pub fn exec(case: &[i64]) -> Outcome {
       .status_check(match c.status_mode { 0 => StatusCheck::Strict, 1 => StatusCheck::SkipUnsupported, _ => StatusCheck::SkipAll }).verification_options(jws_options(&c));
     if let Some((h, m)) = c.sh { opts = opts.subject_holder_relationship(Url::parse(format!("did:example:holder{h}")).unwrap(), match m { 0 => SubjectHolderRelationship::AlwaysSubject, 1 => SubjectHolderRelationship::SubjectOnNonTransferable, _ => SubjectHolderRelationship::Any }); }
     let validator = SdJwtCredentialValidator::with_signature_verifier(KeyEcho, SdObjectDecoder::new_with_sha256());
-    let res = validator.validate_credential::<CoreDocument, Object>(&built.token, &docs[0], &opts, if c.ff { FailFast::FirstError } else { FailFast::AllErrors });
+    let res: Result<identity_credential::validator::DecodedJwtCredential<Object>, Vec<JwtValidationError>> = if multi {
+      validator.verify_signature::<CoreDocument, Object>(&built.token, &docs, &jws_options(&c)).map_err(|e| vec![e])
+    } else {
+      validator.validate_credential::<CoreDocument, Object>(&built.token, &docs[0], &opts, if c.ff { FailFast::FirstError } else { FailFast::AllErrors }).map_err(|e| e.validation_errors)
+    };
     // conditions of the statement
     let bad_disclosures = [1, 2, 4, 5].contains(&tamper) && (tamper != 2 && tamper != 5 || !built.token.disclosures.is_empty());
-    let eff = &c.vc; let used = &c.issuers[..1];
+    let eff = &c.vc; let used = if multi { &c.issuers[..] } else { &c.issuers[..1] };
     let mid: Option<U> = c.method_id.or(if c.kid.0 == 2 { Some(c.kid.1) } else { None });
     let key = mid.and_then(|u| used.iter().find(|i| i.id == u.d).and_then(|d| d.resolve(u, if c.scope < 0 { 9 } else { c.scope })));
     let sig_ok = c.nonce == c.o_nonce && key.map_or(false, |k| k >= 0 && k == c.sigkey);
     let stage1 = sig_ok && !bad_disclosures && built.decodes && c.claims_ok && mid.is_some() && eff.issuer == mid.map(|u| u.d);
     let matches = c.sh.map_or(false, |(h, _)| eff.sub_id == Some(h));
-    let units_ok = eff.issued <= c.latest && eff.expires.map_or(true, |e| e >= c.earliest) && eff.ctx_ok && eff.type_ok && !(eff.sub_id.is_none() && eff.sub_empty)
+    let units_ok = multi || eff.issued <= c.latest && eff.expires.map_or(true, |e| e >= c.earliest) && eff.ctx_ok && eff.type_ok && !(eff.sub_id.is_none() && eff.sub_empty)
       && match c.sh { None => true, Some((_, 0)) => matches, Some((_, 1)) => matches || !eff.nontransf.unwrap_or(false), _ => true }
       && (c.status_mode == 2 || match &eff.status { None => true, Some(s) => if !s.bitmap { c.status_mode == 1 } else { s.wf && eff.issuer.and_then(|d| used.iter().find(|i| i.id == d)).and_then(|i| i.svc.iter().find(|e| e.0.d == s.u.d && s.u.f >= 0 && e.0.f == s.u.f).and_then(|e| i.bms.iter().find(|b| b.0 == e.1))).map_or(false, |b| b.1 && !b.2.contains(&s.idx)) } });
     match res {
@@ -116,7 +121,7 @@ pub fn exec(case: &[i64]) -> Outcome {
         if !(stage1 && units_ok) { o = o.fail(if bad_disclosures { "accepted although a supplied disclosure does not hash to a digest in the signed claims" } else { "accepted although a checked condition is false" }); }
         else if !subj_ok || got.pointer("/credentialSubject/name").map_or(false, |n| n != "x") { o = o.fail("the reconstructed credential does not consist of the signed claims and the supplied disclosures"); }
         o }
-      Err(e) => { let es: Vec<i64> = e.validation_errors.iter().map(|x| { let c = err_code(x); if c == 20 && format!("{x:?}").contains("sd-jwt claims") { 17 } else { c } }).collect();
+      Err(e) => { let es: Vec<i64> = e.iter().map(|x| { let c = err_code(x); if c == 20 && format!("{x:?}").contains("sd-jwt claims") { 17 } else { c } }).collect();
         let mut obs = vec![1, es.len() as i64]; obs.extend(es.iter());
         let mut o = Outcome::new(obs).class(if es.contains(&17) { "sd-disclosures-rejected" } else if es.len() == 1 && es[0] < 10 { "sd-rejected-signature-stage" } else { "sd-rejected-units" });
         if stage1 && units_ok { o = o.fail("rejected although every checked condition holds"); }
@@ -181,6 +186,19 @@ pub fn gen(rng: &mut Rng, thorough: bool, sink: &mut Sink) {
   for conceal in 0..8 { for disclose in 0..8 { if disclose & !conceal != 0 { continue; } for tamper in 0..6 { emit1(&base_case(), conceal, disclose, tamper, sink); } } }
   for (_, fs) in &muts { for f in fs { let mut c = base_case(); f(&mut c); for (conceal, disclose) in [(7, 7), (7, 0), (5, 1), (3, 2)] { emit1(&c, conceal, disclose, 0, sink); } emit1(&c, 7, 7, 1, sink); } }
   for _ in 0..(if thorough { 6000 } else { 700 }) { let mut c = base_case(); for (k, (_, fs)) in muts.iter().enumerate() { if rng.chance(if k < 7 { 1 } else { 3 }, 8) { rng.pick(fs)(&mut c); } } let conceal = rng.range(0, 7); let disclose = rng.range(0, 7) & conceal; emit1(&c, conceal, disclose, if rng.chance(1, 3) { rng.range(1, 5) } else { 0 }, sink); }
+  // (1b) verify_signature over several trusted issuers (both orders, with and without the right one): kind 3
+  let emit3 = |c: &C02Case, conceal: i64, disclose: i64, tamper: i64, sink: &mut Sink| {
+    let eff = C02Case { vc: effective(&c.vc, conceal, disclose), ..c.clone() };
+    let decodes = match build_sd(c, conceal, disclose, tamper) { Some(b) => b.decodes, None => return };
+    let e = eff.enc(); let mut case = vec![3, decodes as i64]; case.extend_from_slice(&e[1..]); case.extend([conceal, disclose, tamper]); c.vc.enc(&mut case);
+    sink.case(case, "sd-trusted-issuers");
+  };
+  for order in 0..5 { for (_, fs) in &muts[..7] { for f in fs { let mut c = base_case(); f(&mut c);
+    c.issuers = match order { 0 => vec![crate::c02::other_issuer(), crate::c02::base_issuer()], 1 => vec![crate::c02::base_issuer(), crate::c02::other_issuer()], 2 => vec![crate::c02::other_issuer()], 3 => vec![crate::c02::base_issuer()], _ => vec![] };
+    for (conceal, disclose, tamper) in [(7, 7, 0), (7, 0, 0), (3, 1, 1)] { emit3(&c, conceal, disclose, tamper, sink); } } } }
+  for _ in 0..(if thorough { 4000 } else { 400 }) { let mut c = base_case(); for (_, fs) in &muts[..7] { if rng.chance(1, 3) { rng.pick(fs)(&mut c); } }
+    c.issuers = if rng.chance(1, 2) { vec![crate::c02::other_issuer(), crate::c02::base_issuer()] } else { vec![crate::c02::base_issuer(), crate::c02::other_issuer()] };
+    let conceal = rng.range(0, 7); let disclose = rng.range(0, 7) & conceal; emit3(&c, conceal, disclose, if rng.chance(1, 4) { rng.range(1, 5) } else { 0 }, sink); }
   // (2) key binding: each bound field right / wrong, singles and pairs
   let holder = holder_doc();
   let base = Kb { present: true, sd_variant: 0, kb_garbage: false, typ: 0, kid: (2, U { d: 1, r: 0, f: 0 }), sigkey: 10, claims_variant: 0, hash_variant: 0, nonce: 1, aud: 1, iat: 1000, o_nonce: Some(1), o_aud: Some(1), method_id: None, scope: -1, earliest: Some(500), latest: Some(2000) };
